@@ -1,14 +1,21 @@
-import OH.Proofs.HintDatedLocal
+import OH.Proofs.HintDatedWindow
 /-
-Layer B — dated ranges: decidable side conditions and the combined theorem.
+Layer B — dated ranges: the decidable side condition and the combined theorem.
 
-`singleDaySafe so eo` ⇒ `SDLocal ∨ SDEmpty` (S2), `datedLocalB s so e eo` ⇒ `DatedLocal` (S3),
-`datedHintSafe s so e eo` puts the three paths together.
+Three paths of `MonthdayRange::Date`:
+ * a single fixed day WITH a year, and a range whose start carries a year (`single_interval_from_bounds`):
+   filter and hint read the same interval(s), sound for ANY offsets (OH/Proofs/HintDated.lean);
+ * a single fixed day without a year, and the windowed general path (two yearless bounds): sound for day
+   offsets within ±100 000 days, whatever the size of the shift relative to a year
+   (OH/Proofs/HintDatedWindow.lean) — the search windows are centred on the year of `d - day offset`;
+ * a single fixed day without a year whose occurrences are all empty (shifted end before shifted start):
+   sound for ANY offsets (below).
 -/
 namespace OH.Model
 open OH.Model.Cal
+open OH.Proofs.EvalSpec (offSmallD)
 
-/-! ### bounds on a shift that does not saturate -/
+/-! ### a yearless single day whose occurrences are all empty: any offsets -/
 
 /-- least and greatest displacement of `DateOffset::apply` (weekday moves are at most 6 days) -/
 def loOff (o : DateOffset) : Int :=
@@ -21,304 +28,111 @@ def hiOff (o : DateOffset) : Int :=
   | .next _ => o.days + 6
   | _ => o.days
 
-theorem yearStart_1898 : yearStart 1898 = 692865 := by decide
-theorem yearStart_10010 : yearStart 10010 = 3655712 := by decide
-
-theorem shiftC_bounds (o : DateOffset) (f : Int) (hf1 : 600000 ≤ f) (hf2 : f ≤ 3700000)
-    (hd1 : -90000000 ≤ o.days) (hd2 : o.days ≤ 90000000) :
-    f + loOff o ≤ o.shiftC f ∧ o.shiftC f ≤ f + hiOff o := by
+/-- when the shifted end is always before the shifted start (`Jan 01 +10 days-Jan 01 +5 days`), no
+occurrence contains a day of the evaluation window — saturated shifts included: an occurrence pinned at
+`NaiveDate::MIN`/`MAX` lies outside the window -/
+theorem sd_empty_false (so eo : DateOffset) (h : hiOff eo < loOff so) (f : Int) (x : Int)
+    (hx1 : dateStart ≤ x) (hx2 : x < dateEnd) : ¬ (so.shiftC f ≤ x ∧ x ≤ eo.shiftC f) := by
   have hmin := minDay_eq; have hmax := maxDay_eq
-  obtain ⟨p1, p2, p3⟩ := o.shiftC_dir f
-  have hc : clampDay (f + o.days) = f + o.days := clampDay_of_inRange (by omega) (by omega)
-  rw [hc] at p1 p2 p3
-  unfold loOff hiOff
-  cases hw : o.wday with
-  | none => have := p1 hw; simp only []; omega
-  | prev t => have := p2 ⟨t, hw⟩; simp only []; omega
-  | next t => have := p3 ⟨t, hw⟩; simp only []; omega
+  have hs := Cal.dateStart_eq; have he := Cal.dateEnd_eq
+  obtain ⟨a1, a2, a3⟩ := so.shiftC_dir f
+  obtain ⟨b1, b2, b3⟩ := eo.shiftC_dir f
+  unfold loOff hiOff at h
+  unfold clampDay at a1 a2 a3 b1 b2 b3
+  cases hw : so.wday with
+  | none =>
+    have A := a1 hw
+    cases hw' : eo.wday with
+    | none => have B := b1 hw'; simp only [hw, hw'] at h; omega
+    | prev t => have B := b2 ⟨t, hw'⟩; simp only [hw, hw'] at h; omega
+    | next t => have B := b3 ⟨t, hw'⟩; simp only [hw, hw'] at h; omega
+  | prev u =>
+    have A := a2 ⟨u, hw⟩
+    cases hw' : eo.wday with
+    | none => have B := b1 hw'; simp only [hw, hw'] at h; omega
+    | prev t => have B := b2 ⟨t, hw'⟩; simp only [hw, hw'] at h; omega
+    | next t => have B := b3 ⟨t, hw'⟩; simp only [hw, hw'] at h; omega
+  | next u =>
+    have A := a3 ⟨u, hw⟩
+    cases hw' : eo.wday with
+    | none => have B := b1 hw'; simp only [hw, hw'] at h; omega
+    | prev t => have B := b2 ⟨t, hw'⟩; simp only [hw, hw'] at h; omega
+    | next t => have B := b3 ⟨t, hw'⟩; simp only [hw, hw'] at h; omega
 
-theorem yearStart_window {k : Int} (h1 : 1898 ≤ k) (h2 : k ≤ 10009) :
-    600000 ≤ yearStart k ∧ yearStart (k + 1) ≤ 3700000 := by
-  have := yearStart_le (a := 1898) (b := k) h1
-  have := yearStart_le (a := k + 1) (b := 10010) (by omega)
-  have := yearStart_1898; have := yearStart_10010
-  omega
+theorem singleDayV_mem (m dd : Nat) (so eo : DateOffset) (d : Int) (ys : List Int) (r : Int × Int)
+    (h : singleDayV m dd so eo d ys = some r) : ∃ f, r = (so.shiftC f, eo.shiftC f) ∧ eo.shiftC f ≥ d := by
+  induction ys with
+  | nil => simp [singleDayV] at h
+  | cons y ys ih =>
+    simp only [singleDayV] at h
+    cases hf : ofYmd? y m dd with
+    | none => rw [hf] at h; exact ih h
+    | some f =>
+      rw [hf] at h
+      simp only [] at h
+      split at h
+      · rename_i hge
+        simp only [Option.some.injEq] at h
+        exact ⟨f, h.symm, hge⟩
+      · exact ih h
 
-/-! ### S2: decidable side condition -/
-
-/-- sufficient for the single-day path: no saturation, and either every occurrence is empty (the
-shifted end is always before the shifted start) or the shifted start stays after Jan 1 of the
-previous year, the shifted end before Jan 1 of the year after next and after Jan 1 two years back -/
-def singleDaySafe (so eo : DateOffset) : Bool :=
-  decide (-90000000 ≤ so.days ∧ so.days ≤ 90000000 ∧ -90000000 ≤ eo.days ∧ eo.days ≤ 90000000) &&
-    (decide (hiOff eo < loOff so) || decide (-365 ≤ loOff so ∧ hiOff eo ≤ 365 ∧ -730 ≤ loOff eo))
-
-theorem singleDaySafe_spec (m dd : Nat) (so eo : DateOffset) (h : singleDaySafe so eo = true) :
-    SDLocal m dd so eo ∨ SDEmpty m dd so eo := by
-  simp only [singleDaySafe, Bool.and_eq_true, Bool.or_eq_true, decide_eq_true_eq] at h
-  obtain ⟨⟨s1, s2, e1, e2⟩, h⟩ := h
-  -- position of the occurrence of year `k`
-  have pos : ∀ k f, 1899 ≤ k → k ≤ 10009 → ofYmd? k m dd = some f →
-      yearStart k < f ∧ f ≤ yearStart (k + 1) ∧ 600000 ≤ f ∧ f ≤ 3700000 := by
-    intro k f k1 k2 hf
-    obtain ⟨_, _, v, rfl⟩ := ofYmd?_eq_some_iff.1 hf
-    have := ymdRaw_bounds v
-    have := yearStart_succ k
-    have := yearStart_window (k := k) (by omega) k2
-    omega
-  rcases h with h | ⟨h1, h2, h3⟩
-  · right
-    intro k f k1 k2 hf
-    obtain ⟨_, _, p3, p4⟩ := pos k f k1 k2 hf
-    have := shiftC_bounds so f p3 p4 s1 s2
-    have := shiftC_bounds eo f p3 p4 e1 e2
-    omega
-  · left
-    refine ⟨?_, ?_, ?_⟩
-    · intro k f k1 k2 hf
-      obtain ⟨p1, p2, p3, p4⟩ := pos k f k1 k2 hf
-      have := shiftC_bounds eo f p3 p4 e1 e2
-      have := yearStart_succ (k + 1)
-      have := yearLen_cases (k + 1)
-      rw [show k + 2 = k + 1 + 1 by omega]
+/-- **single day without a year, every occurrence empty**: the filter is false on the whole window and the
+hint points after the day — ANY offsets -/
+theorem MonthdayRange.date_hintOK_singleDayEmpty (m dd : Nat) (so eo : DateOffset)
+    (hw : (MonthdayRange.date (.fixed none m dd) so (.fixed none m dd) eo).wf = true)
+    (hE : hiOff eo < loOff so) (d : Int) (hd1 : dateStart ≤ d) (hd2 : d < dateEnd) :
+    HintOK (MonthdayRange.date (.fixed none m dd) so (.fixed none m dd) eo).filter
+      (MonthdayRange.date (.fixed none m dd) so (.fixed none m dd) eo).hint d := by
+  have hsd : singleDayOf (.fixed none m dd) (.fixed none m dd) = some (none, m, dd) := by simp [singleDayOf]
+  have hf : ∀ x, dateStart ≤ x → x < dateEnd →
+      datedFilterV (.fixed none m dd) so (.fixed none m dd) eo x = false := by
+    intro x x1 x2
+    unfold datedFilterV; rw [hsd]
+    simp only []
+    cases hr : singleDayV m dd so eo x (sdYears none (yearBeforeOffset x eo) 8) with
+    | none => rfl
+    | some r =>
+      obtain ⟨f, rfl, _⟩ := singleDayV_mem m dd so eo x _ r hr
+      have := sd_empty_false so eo hE f x x1 x2
+      simp only [sdRes, Bool.and_eq_false_iff, decide_eq_false_iff_not]
       omega
-    · intro k f k1 k2 hf
-      obtain ⟨p1, p2, p3, p4⟩ := pos k f k1 k2 hf
-      have := shiftC_bounds so f p3 p4 s1 s2
-      have := yearStart_pred k
-      have := yearLen_cases (k - 1)
-      omega
-    · intro k f k1 k2 hf
-      obtain ⟨p1, p2, p3, p4⟩ := pos k f k1 k2 hf
-      have := shiftC_bounds eo f p3 p4 e1 e2
-      have := yearStart_pred k
-      have := yearLen_cases (k - 1)
-      have := yearStart_pred (k - 1)
-      have := yearLen_cases (k - 1 - 1)
-      rw [show k - 2 = k - 1 - 1 by omega]
-      omega
+  apply MonthdayRange.date_hintOK_of_V _ _ _ _ hw d
+  · unfold datedHintV; rw [hsd]
+    simp only []
+    cases hr : singleDayV m dd so eo d (sdYears none (yearBeforeOffset d eo) 10) with
+    | none => exact hd2
+    | some r =>
+      obtain ⟨f, rfl, hge⟩ := singleDayV_mem m dd so eo d _ r hr
+      simp only [sdNext]
+      split
+      · cases hs : succ? (eo.shiftC f) with
+        | none => simpa using hd2
+        | some y => have := succ?_eq_some_iff.1 hs; simp only [Option.getD_some]; omega
+      · omega
+  · intro d' a _ c
+    rw [hf d' (by omega) c, hf d hd1 hd2]
 
-/-! ### `valid_ymd_after` / `valid_ymd_before` stay in the month's neighbourhood -/
-
-theorem firstValidBelow_of_ge (y : Int) (m : Nat) (succ : Bool) (h1 : minYear ≤ y) (h2 : y < maxYear) (hm1 : 1 ≤ m)
-    (hm2 : m ≤ 12) (n : Nat) (hn : daysInMonth y m ≤ n) :
-    firstValidBelow y m succ n =
-      some (if succ then ymdRaw y m (daysInMonth y m) + 1 else ymdRaw y m (daysInMonth y m)) := by
-  have hdim := daysInMonth_bounds y m
-  induction n with
-  | zero => omega
-  | succ n ih =>
-    simp only [firstValidBelow]
-    rw [if_neg (by omega)]
-    by_cases hc : n + 1 = daysInMonth y m
-    · rw [hc]
-      have v : ValidYmd y m (daysInMonth y m) := ⟨hm1, hm2, by omega, by omega⟩
-      rw [ofYmd?_of_valid h1 (by omega) v]
-      simp only []
-      cases succ with
-      | false => simp
-      | true =>
-        have hb := ymdRaw_bounds v
-        have hs : succ? (ymdRaw y m (daysInMonth y m)) = some (ymdRaw y m (daysInMonth y m) + 1) := by
-          rw [succ?_eq_some_iff]
-          have := yearStart_succ y
-          have := yearStart_le (a := y + 1) (b := maxYear) (by omega)
-          have := yearStart_maxYear_succ
-          have := yearStart_succ maxYear
-          have := yearLen_cases maxYear
-          have := maxDay_eq
-          omega
-        simp only [if_true, hs]
-    · have hnone : ofYmd? y m (n + 1) = none := by
-        rw [ofYmd?_eq_none_iff]; unfold ValidYmd; omega
-      rw [hnone]
-      exact ih (by omega)
-
-/-- position in the year of `valid_ymd_after`/`valid_ymd_before` -/
-theorem validYmd_pos (y : Int) (m dd : Nat) (after : Bool) (h1 : minYear ≤ y) (h2 : y < maxYear) (hm1 : 1 ≤ m)
-    (hm2 : m ≤ 12) (hd1 : 1 ≤ dd) (_hd2 : dd ≤ 31) :
-    yearStart y + monthStart (isLeap y) m + min (dd : Int) 28 ≤
-        (if after then validYmdAfter y m dd else validYmdBefore y m dd) ∧
-      (if after then validYmdAfter y m dd else validYmdBefore y m dd) ≤ yearStart y + monthStart (isLeap y) m + dd := by
-  have hdim := daysInMonth_bounds y m
-  by_cases hv : dd ≤ daysInMonth y m
-  · have v : ValidYmd y m dd := ⟨hm1, hm2, hd1, hv⟩
-    have e := ofYmd?_of_valid h1 (by omega) v
-    have : (if after then validYmdAfter y m dd else validYmdBefore y m dd) = ymdRaw y m dd := by
-      cases after <;> simp [validYmdAfter, validYmdBefore, e]
-    rw [this]; unfold ymdRaw; omega
-  · have hnone : ofYmd? y m dd = none := by
-      rw [ofYmd?_eq_none_iff]; unfold ValidYmd; omega
-    cases after with
-    | true =>
-      simp only [if_true, validYmdAfter, hnone,
-        firstValidBelow_of_ge y m true h1 h2 hm1 hm2 (dd - 1) (by omega), Option.getD_some]
-      unfold ymdRaw; omega
-    | false =>
-      simp only [Bool.false_eq_true, if_false, validYmdBefore, hnone,
-        firstValidBelow_of_ge y m false h1 h2 hm1 hm2 (dd - 1) (by omega), Option.getD_some]
-      unfold ymdRaw; omega
-
-/-! ### S3: decidable side condition -/
-
-/-- least position in the year (1-based ordinal) of the projections of a bound -/
-def ordLo : DateSpec → Int
-  | .fixed _ m dd => monthStart false m + min (dd : Int) 28
-  | .easter _ => 81
-
-/-- least number of days left in the year after the projections of a bound -/
-def endMargin : DateSpec → Int
-  | .fixed _ m dd => 365 - monthStart false m - dd
-  | .easter _ => 250
-
-/-- the shifted projection of a yearless bound on year `k` lies in year `k` -/
-def boundLocalB (ds : DateSpec) (o : DateOffset) : Bool :=
-  (dateYear ds).isNone && decide (1 ≤ ordLo ds + loOff o) && decide (hiOff o ≤ endMargin ds)
-
-def datedLocalB (s : DateSpec) (so : DateOffset) (e : DateSpec) (eo : DateOffset) : Bool :=
-  boundLocalB s so && boundLocalB e eo
-
-@[simp] theorem loOff_none (n : Int) : loOff ⟨.none, n⟩ = n := rfl
-@[simp] theorem hiOff_none (n : Int) : hiOff ⟨.none, n⟩ = n := rfl
-
-theorem monthStart_leap_le (leap : Bool) (m : Nat) :
-    monthStart false m ≤ monthStart leap m ∧ monthStart leap m ≤ monthStart false m + 1 := by
-  cases leap
-  · omega
-  · unfold monthStart; split <;> simp
-
-theorem monthStart_false_le (m : Nat) : 0 ≤ monthStart false m ∧ monthStart false m ≤ 365 := by
-  unfold monthStart; split <;> simp
-
-theorem monthStart_false_le_334 (m : Nat) (h1 : 1 ≤ m) (h2 : m ≤ 12) : monthStart false m ≤ 334 := by
-  have : m = 1 ∨ m = 2 ∨ m = 3 ∨ m = 4 ∨ m = 5 ∨ m = 6 ∨ m = 7 ∨ m = 8 ∨ m = 9 ∨ m = 10 ∨ m = 11 ∨ m = 12 := by omega
-  rcases this with rfl | rfl | rfl | rfl | rfl | rfl | rfl | rfl | rfl | rfl | rfl | rfl <;> decide
-
-theorem boundLocalB_spec (ds : DateSpec) (o : DateOffset) (after : Bool) (hw : ds.wf = true)
-    (h : boundLocalB ds o = true) (k : Int) (k1 : 1898 ≤ k) (k2 : k ≤ 10009) :
-    ∃ x, boundV ds o after k = some x ∧ year x = k := by
-  simp only [boundLocalB, Bool.and_eq_true, decide_eq_true_eq, Option.isNone_iff_eq_none] at h
-  obtain ⟨⟨hy, hlo⟩, hhi⟩ := h
-  have hwin := yearStart_window k1 k2
-  have hsucc := yearStart_succ k
-  have hlen := yearLen_eq_ite k
-  have hminy : minYear = -262143 := rfl
-  have hmaxy : maxYear = 262142 := rfl
-  -- the unshifted projection and its position
-  have key : ∃ v, dateOnYearV ds k after = some v ∧ yearStart k + ordLo ds ≤ v ∧
-      v + endMargin ds ≤ yearStart (k + 1) ∧ yearStart k < v ∧ v ≤ yearStart (k + 1) := by
-    cases ds with
-    | easter yr =>
-      cases yr with
-      | some y0 => simp [dateYear] at hy
-      | none =>
-        obtain ⟨v, hv, _, v1, v2, _⟩ := easter_spec k (by omega) (by omega)
-        refine ⟨v, ?_, ?_, ?_, ?_, ?_⟩
-        · simp only [dateOnYearV, dateOnYear, hv]
-        all_goals
-          have := monthStart_mar k
-          have := monthStart_apr k
-          have := yearLen_cases k
-          unfold ymdRaw at v1 v2
-          try simp only [ordLo, endMargin]
-          omega
-    | fixed yr m dd =>
-      cases yr with
-      | some y0 => simp [dateYear] at hy
-      | none =>
-        simp only [DateSpec.wf, optYearOk, Bool.and_eq_true, decide_eq_true_eq, Bool.true_and] at hw
-        obtain ⟨⟨⟨m1, m2⟩, d1⟩, d2⟩ := hw
-        obtain ⟨p1, p2⟩ := validYmd_pos k m dd after (by omega) (by omega) m1 m2 d1 d2
-        refine ⟨(if after then validYmdAfter k m dd else validYmdBefore k m dd), rfl, ?_⟩
-        generalize (if after then validYmdAfter k m dd else validYmdBefore k m dd) = v at p1 p2 ⊢
-        have := monthStart_leap_le (isLeap k) m
-        have := monthStart_succ_le_yearLen k m m1 m2
-        have := monthStart_nonneg (isLeap k) m
-        have := daysInMonth_bounds k m
-        have hms : isLeap k = true → m ≤ 2 → monthStart (isLeap k) m = monthStart false m := by
-          intro hl hm
-          rw [hl]
-          have : m = 1 ∨ m = 2 := by omega
-          rcases this with rfl | rfl <;> rfl
-        have hms' : isLeap k = true → 3 ≤ m → monthStart (isLeap k) m = monthStart false m + 1 := by
-          intro hl hm
-          rw [hl]
-          have : m = 3 ∨ m = 4 ∨ m = 5 ∨ m = 6 ∨ m = 7 ∨ m = 8 ∨ m = 9 ∨ m = 10 ∨ m = 11 ∨ m = 12 := by omega
-          rcases this with rfl | rfl | rfl | rfl | rfl | rfl | rfl | rfl | rfl | rfl <;> rfl
-        have hle : monthStart false m + dd ≤ 365 := by
-          have := monthStart_false_le_334 m m1 m2
-          omega
-        have := (monthStart_false_le m).1
-        simp only [ordLo, endMargin] at hlo hhi ⊢
-        by_cases hl : isLeap k = true
-        · rw [if_pos hl] at hlen
-          by_cases hm : m ≤ 2
-          · have := hms hl hm; omega
-          · have := hms' hl (by omega); omega
-        · rw [if_neg hl] at hlen
-          have : isLeap k = false := by simpa using hl
-          rw [this] at p1 p2
-          omega
-  obtain ⟨v, hv, q1, q2, q3, q4⟩ := key
-  have hlo' : -90000000 ≤ o.days := by
-    have : ordLo ds ≤ 400 := by
-      cases ds with
-      | easter _ => simp [ordLo]
-      | fixed _ m dd => have := monthStart_false_le m; simp only [ordLo]; omega
-    unfold loOff at hlo; split at hlo <;> omega
-  have hhi' : o.days ≤ 90000000 := by
-    have : endMargin ds ≤ 400 := by
-      cases ds with
-      | easter _ => simp [endMargin]
-      | fixed _ m dd => have := monthStart_false_le m; simp only [endMargin]; omega
-    unfold hiOff at hhi; split at hhi <;> omega
-  have := shiftC_bounds o v (by omega) (by omega) hlo' hhi'
-  refine ⟨o.shiftC v, ?_, ?_⟩
-  · simp only [boundV, hv, Option.map_some]
-  · rw [year_eq_iff]; omega
-
-theorem datedLocalB_spec (s : DateSpec) (so : DateOffset) (e : DateSpec) (eo : DateOffset)
-    (hw : (MonthdayRange.date s so e eo).wf = true) (h : datedLocalB s so e eo = true) : DatedLocal s so e eo := by
-  simp only [MonthdayRange.wf, Bool.and_eq_true] at hw
-  obtain ⟨⟨⟨hs, _⟩, he⟩, _⟩ := hw
-  simp only [datedLocalB, Bool.and_eq_true] at h
-  intro k k1 k2
-  exact ⟨boundLocalB_spec s so true hs h.1 k k1 k2, boundLocalB_spec e eo false he h.2 k k1 k2⟩
-
-/-- offsets `⟨none, 0⟩` on both bounds: always year-local -/
-theorem datedLocalB_of_no_offsets (s e : DateSpec) (hs : s.wf = true) (he : e.wf = true) (ys : dateYear s = none)
-    (ye : dateYear e = none) : datedLocalB s ⟨.none, 0⟩ e ⟨.none, 0⟩ = true := by
-  have key : ∀ ds : DateSpec, ds.wf = true → dateYear ds = none → boundLocalB ds ⟨.none, 0⟩ = true := by
-    intro ds hds hy
-    simp only [boundLocalB, hy, Option.isNone_none, Bool.true_and, Bool.and_eq_true, loOff_none, hiOff_none]
-    cases ds with
-    | easter _ => simp [ordLo, endMargin]
-    | fixed yr m dd =>
-      simp only [DateSpec.wf, Bool.and_eq_true, decide_eq_true_eq] at hds
-      obtain ⟨⟨⟨⟨_, m1⟩, m2⟩, d1⟩, d2⟩ := hds
-      simp only [ordLo, endMargin]
-      have := monthStart_false_le_334 m m1 m2
-      have := (monthStart_false_le m).1
-      constructor <;> apply decide_eq_true <;> omega
-  simp only [datedLocalB, Bool.and_eq_true]
-  exact ⟨key s hs ys, key e he ye⟩
-
-/-! ### the three paths together -/
+/-! ### the paths together -/
 
 /-- decidable sufficient condition for the soundness of the dated hint: nothing for a single day with
-a year and for a start that carries a year (one interval), `singleDaySafe` for a yearless single
-day, `datedLocalB` for the windowed general path -/
+a year and for a start that carries a year (one interval); for a yearless single day: day offsets within
+±100 000 days, or every occurrence empty (the shifted end always before the shifted start, any offsets);
+for the windowed general path: day offsets within ±100 000 days and an end without a year (the range has a
+defined meaning) -/
 def datedHintSafe (s : DateSpec) (so : DateOffset) (e : DateSpec) (eo : DateOffset) : Bool :=
   match singleDayOf s e with
   | some (some _, _, _) => true
-  | some (none, _, _) => singleDaySafe so eo
-  | none => (dateYear s).isSome || datedLocalB s so e eo
+  | some (none, _, _) => (offSmallD so && offSmallD eo) || decide (hiOff eo < loOff so)
+  | none => (dateYear s).isSome || ((dateYear e).isNone && (offSmallD so && offSmallD eo))
 
 /-- **Dated ranges**: under `datedHintSafe` the hint is sound on the whole evaluation window. -/
 theorem MonthdayRange.date_hintOK (s : DateSpec) (so : DateOffset) (e : DateSpec) (eo : DateOffset)
     (hw : (MonthdayRange.date s so e eo).wf = true) (hsafe : datedHintSafe s so e eo = true)
     (d : Int) (hd1 : dateStart ≤ d) (hd2 : d < dateEnd) :
     HintOK (MonthdayRange.date s so e eo).filter (MonthdayRange.date s so e eo).hint d := by
+  have hw' := hw
+  simp only [MonthdayRange.wf, DateOffset.wf, Bool.and_eq_true] at hw'
+  obtain ⟨⟨⟨ws, ⟨wso, _⟩⟩, we⟩, ⟨weo, _⟩⟩ := hw'
   cases hsd : singleDayOf s e with
   | none =>
     cases hsi : singleIntervalV s so e eo with
@@ -326,8 +140,17 @@ theorem MonthdayRange.date_hintOK (s : DateSpec) (so : DateOffset) (e : DateSpec
       exact MonthdayRange.date_hintOK_single s so e eo hw hsd iv (by rw [singleInterval_eq s so e eo hw, hsi]) d hd2
     | none =>
       have hy := (singleIntervalV_none_iff s so e eo hw).1 hsi
-      simp only [datedHintSafe, hsd, hy, Option.isSome_none, Bool.false_or] at hsafe
-      exact MonthdayRange.date_hintOK_local s so e eo hw hsd (datedLocalB_spec s so e eo hw hsafe) d hd1 hd2
+      simp only [datedHintSafe, hsd, hy, Option.isSome_none, Bool.false_or, Bool.and_eq_true,
+        Option.isNone_iff_eq_none, offSmallD, decide_eq_true_eq] at hsafe
+      obtain ⟨hey, hss, hes⟩ := hsafe
+      have hns : ¬ (s = e ∧ OH.Spec.isFixedDate s = true) := by
+        rintro ⟨rfl, hfx⟩
+        cases s with
+        | easter yr => simp [OH.Spec.isFixedDate] at hfx
+        | fixed yr m dd => simp [singleDayOf] at hsd
+      exact OH.Proofs.EvalSpec.dated_yearless_hintOK s so e eo ⟨ws, wso, hss⟩ ⟨we, weo, hes⟩
+        (by rw [← OH.Proofs.EvalSpec.dateYear_eq]; exact hy)
+        (by rw [← OH.Proofs.EvalSpec.dateYear_eq]; exact hey) hns d hd1 hd2
   | some md =>
     -- `s = e = .fixed fy m dd`
     cases s with
@@ -340,8 +163,11 @@ theorem MonthdayRange.date_hintOK (s : DateSpec) (so : DateOffset) (e : DateSpec
         cases yr with
         | some fy => exact MonthdayRange.date_hintOK_singleDayYear fy m dd so eo hw d hd2
         | none =>
-          simp only [datedHintSafe, singleDayOf, if_true] at hsafe
-          exact MonthdayRange.date_hintOK_singleDay m dd so eo hw (singleDaySafe_spec m dd so eo hsafe) d hd1 hd2
+          simp only [datedHintSafe, singleDayOf, if_true, Bool.or_eq_true, Bool.and_eq_true, offSmallD,
+            decide_eq_true_eq] at hsafe
+          rcases hsafe with hsafe | hsafe
+          · exact OH.Proofs.EvalSpec.dated_single_hintOK m dd so eo wso hsafe.1 weo hsafe.2 d hd1 hd2
+          · exact MonthdayRange.date_hintOK_singleDayEmpty m dd so eo hw hsafe d hd1 hd2
       · cases hsd
 
 /-- the selector-level obligation for a dated range: the filter never panics and the hint is sound
